@@ -2,8 +2,17 @@
   BB.Lex — `lex_tokens` (asm.py, def lex_tokens) on ASCII lines.
 
   Order of the Python: the `\s*error (.*)` special case, the `\s*string (.*)` special case (both
-  decode the rest of the line with `unicode_escape`), otherwise: strip `#.*$`, pad parentheses with
-  spaces, strip, split on `[\s,]+`, drop empty tokens.
+  decode the rest of the line with `unicode_escape`), otherwise `RE_TOKEN.findall` minus the comment:
+
+      [#].*  |  [()]  |  (?: '(?:[^\\]|\\.\w*)' | [^\s,()#] )+
+
+  a comment ends the line, a parenthesis is a token of its own, anything else runs up to the next
+  separator / parenthesis / `#`, and a quoted character (`','`, `' '`, `'#'`, `'('`, `'''`, `'\n'`,
+  `'\x41'` …) is taken whole whatever it contains (`plainTokens`, a left-to-right scanner).
+  Before fix "keep quoted character literals intact" the ordinary path was: strip `#.*$`, pad
+  parentheses with spaces, strip, split on `[\s,]+`, drop empty tokens (`plainTokensOld`); the two
+  agree on every line without an apostrophe in front of its comment (`BB.plainTokens_eq_old`,
+  Lemmas/FrontLex).
   Lines containing a non-ASCII character or a `\n` are outside the model (`Err.unsupported`;
   `read_lines` never produces a line containing `\n`).
 -/
@@ -47,8 +56,47 @@ def ofExprErr : ExprErr → Err
   | .internal py => .internal py
   | .unsupported why => .unsupported why
 
-/-- the ordinary path of `lex_tokens` -/
-def plainTokens (l : List Char) : List (List Char) := chunks (padParens (stripComment l))
+/-- the ordinary path of `lex_tokens` as it was before character literals were kept whole -/
+def plainTokensOld (l : List Char) : List (List Char) := chunks (padParens (stripComment l))
+
+/-- `\w` of `re` on ASCII text -/
+def isWordC (c : Char) : Bool := isIdentChar c
+
+/-- `\w*'` : the length of the run of word characters, if a quote ends it -/
+def wordsThenQuote : List Char → Option Nat
+  | [] => none
+  | c :: cs =>
+    if c = '\'' then some 0
+    else if isWordC c then (wordsThenQuote cs).map (· + 1) else none
+
+/-- what follows an opening quote, matched against `(?:[^\\]|\\.\w*)'` : the number of characters
+    of the match (closing quote included) -/
+def litLen : List Char → Option Nat
+  | c :: d :: r =>
+    if c = '\\' then
+      if d = '\n' then none else (wordsThenQuote r).map (· + 3)
+    else if d = '\'' then some 2 else none
+  | _ => none
+
+/-- the open chunk (if any) in front of the finished ones -/
+def pushChunk (p : List Char × List (List Char)) : List (List Char) :=
+  if p.1 = [] then p.2 else p.1 :: p.2
+
+/-- left-to-right scan, `k` = characters of a character literal still to be taken as they are:
+    (the token that is still open at the front, the tokens after it) -/
+def tokGo : Nat → List Char → List Char × List (List Char)
+  | _, [] => ([], [])
+  | k + 1, c :: cs => let p := tokGo k cs; (c :: p.1, p.2)
+  | 0, c :: cs =>
+    if c = '#' then ([], [])
+    else if isSep c then ([], pushChunk (tokGo 0 cs))
+    else if c = '(' ∨ c = ')' then ([], [c] :: pushChunk (tokGo 0 cs))
+    else
+      let p := tokGo (if c = '\'' then (litLen cs).getD 0 else 0) cs
+      (c :: p.1, p.2)
+
+/-- the ordinary path of `lex_tokens`: `RE_TOKEN.findall(contents)` without the comment -/
+def plainTokens (l : List Char) : List (List Char) := pushChunk (tokGo 0 l)
 
 def lexTokens (l : List Char) : Except Err (List String) :=
   if ¬ l.all isAsciiC then .error (.unsupported "non-ascii")
